@@ -25,6 +25,10 @@ const reqTimeout = 8 * time.Second
 // noChainPin makes the next newExchange build a client without WithChainID.
 var noChainPin bool
 
+// clientMetrics makes the next newExchange build a client with metrics enabled (the bookkeeping around a request
+// must not change its outcome).
+var clientMetrics bool
+
 // item is one thing a scripted peer writes on the stream.
 type item struct {
 	status p2p_pb.StatusCode
@@ -151,6 +155,9 @@ func newExchange(t *testing.T, host libhost.Host, trusted []peer.ID, chunk uint6
 	}
 	if !noChainPin {
 		opts = append(opts, p2p.WithChainID(networkID))
+	}
+	if clientMetrics {
+		opts = append(opts, p2p.WithMetrics[p2p.ClientParameters]())
 	}
 	if chunk > 0 {
 		opts = append(opts, p2p.WithMaxHeadersPerRangeRequest(chunk))
